@@ -212,6 +212,12 @@ def run(ctx):
         for i in rng.sample(range(2 ** nq), k):
             vec[i] = rng.choice([3 + 4j, 5, 5j, 4 - 3j, 1, 2 + 1j, 0.5, 6])
         thresh = rng.choice([5.0, 1.0, 2.0, 0.75])
+        # the same pattern at small overall scales (powers of two, so that magnitudes stay exact): the threshold is a
+        # magnitude, whatever its size
+        sc = rng.choice([1.0, 1.0, 2.0 ** -10, 2.0 ** -20, 2.0 ** -26])
+        vec = vec * sc
+        thresh = thresh * sc
+        ctx.count(f"detect:scale=2^{int(round(numpy.log2(sc)))}")
         desc = {"norb": norb, "thresh": thresh, "vec": [[i, [z.real, z.imag]] for i, z in enumerate(vec) if z != 0]}
         exp_secs = set()
         for i, z in enumerate(vec):
@@ -242,7 +248,15 @@ def run(ctx):
             if z != 0 and (na + nb, na - nb) in exp_secs:
                 proj[i] = z
         if want != proj:
-            ctx.disagree("from_cirq:amplitudes", "imported amplitudes differ from the vector on the created sectors", desc)
+            differ = [i for i in set(want) | set(proj) if want.get(i, 0) != proj.get(i, 0)]
+            if all(abs(proj.get(i, 0)) < 1e-8 * 2 ** bin(i).count("1") * (1 + 1e-9) and want.get(i, 0) == 0 for i in differ):
+                # amplitudes below 1e-8 * 2^N (OpenFermion's EQ_TOLERANCE applied to the projection before it is
+                # divided by 2^N) vanish on the reference path
+                ctx.disagree("from_cirq:amplitudes-below-1e-8-dropped",
+                             f"{len(differ)} amplitude(s) of magnitude < 1e-8 * 2^N in a created sector were imported as zero "
+                             f"(threshold {thresh:g})", desc)
+            else:
+                ctx.disagree("from_cirq:amplitudes", "imported amplitudes differ from the vector on the created sectors", desc)
 
 
 def replay(ctx, rep):
